@@ -57,6 +57,7 @@ struct Op {
     int o = 0, k = 0, lvl = 0;           // Seed / Man (o)
     std::vector<int> a, d;               // Man
     int acc = 0, res = 0, sk = 0, usage = 0;  // Msg; res 9 = bare JID, usage 0 = ATM, 1 = other usage, 2 = no trust-message element
+    std::string flags;                   // Msg, optional: g = type groupchat, h = headline, n = normal, e = error; s = delivered through QXmppClient::messageReceived
     std::vector<KO> owners;
 };
 
@@ -74,6 +75,7 @@ static std::string opText(const Op &op) {
         os << "msg " << op.enc << " " << op.acc << " " << op.res << " " << op.sk << " " << op.usage << " ";
         if (op.owners.empty()) os << "-";
         for (size_t i = 0; i < op.owners.size(); i++) { if (i) os << ";"; os << op.owners[i].jid << ":" << listText(op.owners[i].tr) << ":" << listText(op.owners[i].di); }
+        if (!op.flags.empty()) os << " " << op.flags;
         break;
     }
     return os.str();
@@ -88,7 +90,7 @@ static Op parseOp(const std::string &line) {
     else if (w == "seed") { op.kind = Op::Seed; is >> op.enc >> op.o >> op.k >> op.lvl; }
     else if (w == "man") { op.kind = Op::Man; std::string a, d; is >> op.enc >> op.o >> a >> d; op.a = parseList(a); op.d = parseList(d); }
     else if (w == "msg") {
-        op.kind = Op::Msg; std::string owners; is >> op.enc >> op.acc >> op.res >> op.sk >> op.usage >> owners;
+        op.kind = Op::Msg; std::string owners; is >> op.enc >> op.acc >> op.res >> op.sk >> op.usage >> owners; is >> op.flags;
         if (owners != "-") {
             std::istringstream os(owners); std::string item;
             while (std::getline(os, item, ';')) {
@@ -124,6 +126,7 @@ public:
     int policy[NENC]; std::vector<Pending> pending[NENC]; std::vector<Pending> discarded[NENC];
     std::map<int, std::set<int>> idAccounts[NENC]; bool shared[NENC];   // which accounts each key ID has been used with in this sequence
     std::vector<std::string> history; int curEnc = 0;
+    std::string prevText; bool prevAuthd = false, prevConsumed = false;
     std::map<std::string, int> failCount;
 
     tst_QXmppAtmManager() {
@@ -184,13 +187,14 @@ public:
         for (int e = 0; e < NENC; e++) { doneVoid(storage->resetAll(encNs(e))); policy[e] = 0; pending[e].clear(); discarded[e].clear(); idAccounts[e].clear(); shared[e] = false; }
         client->configuration().setJid(acct(own) + "/" + resName(ownRes));
         for (int e = 0; e < NENC; e++) { Snap s = snap(e); if (!s.lv.empty() || !s.pp.empty()) { fprintf(stderr, "resetAll left data behind\n"); exit(5); } }
-        history.clear();
+        history.clear(); prevText.clear();
         corr("reset " + std::to_string(own) + " " + std::to_string(ownRes), "ok");
     }
 
     QXmppMessage buildMessage(const Op &op) {
         QXmppMessage m;
         m.setFrom(op.res == 9 ? acct(op.acc) : acct(op.acc) + "/" + resName(op.res));
+        for (char f : op.flags) { if (f == 'g') m.setType(QXmppMessage::GroupChat); if (f == 'h') m.setType(QXmppMessage::Headline); if (f == 'n') m.setType(QXmppMessage::Normal); if (f == 'e') m.setType(QXmppMessage::Error); }
         m.setTo(acct(own) + "/" + resName(ownRes));
         if (op.usage != 2) {
             QXmppTrustMessageElement el;
@@ -232,6 +236,7 @@ public:
         for (int o = 0; o < NACC; o++) for (int k = 0; k < NKEY; k++) if (b.level(o, k) != a.level(o, k)) changed.insert({ o, k });
         for (auto &kv : a.lv) if (kv.first.first >= NACC || kv.first.second >= NKEY) fail("C18:harness:key-outside-universe");
         const bool atmOp = op.kind == Op::Man || op.kind == Op::Msg;
+        if (op.kind != Op::Msg) prevText.clear();
 
         // Defect fixed in repo commit a532e12 (key C18:cross-owner-key-id stays live): held-back entries filed under a key ID used with two accounts
         // fired for the wrong account.  An out-of-scope change is reported under that key if key IDs are shared in this sequence AND some held-back
@@ -243,6 +248,16 @@ public:
             const bool self = op.acc == own && op.res == ownRes;
             const bool shouldProcess = op.usage == 0 && !self;
             const bool authd = b.level(op.acc, op.sk) == L_AUTH;
+            // a duplicated / replayed trust message changes nothing (as long as the sender key's status is what it was for the first copy)
+            { std::string t = opText(op);
+              if (t == prevText && authd == prevAuthd) {
+                  if (a == b) { oraclePass()++; stat("replayed_message_idempotent"); }
+                  // the first copy made held-back decisions fire; the replay re-asserts the message's own verdicts over them (ATM has no ordering of
+                  // trust messages and relies on the replay protection of the end-to-end encryption): counted, not a failure
+                  else if (prevConsumed) stat("replayed_message_reasserted_over_fired_decisions");
+                  else fail("C18:replay-changes-state");
+              }
+              prevText = t; prevAuthd = authd; prevConsumed = consumed; }
             stat(self ? "msg_self" : op.usage != 0 ? "msg_not_atm" : authd ? "msg_sender_authenticated" : "msg_sender_unauthenticated");
             if (self) { if (!(a == b)) fail("C18:self-message-not-ignored"); else oraclePass()++; }
             else if (op.usage != 0) { if (!(a == b)) fail("C18:non-atm-message-not-ignored"); else oraclePass()++; }
@@ -321,7 +336,7 @@ public:
                 bool ok = contested(r) ? (got == L_AUTH || got == L_MANDIS) : got == expected;
                 // a trusted key may be distrusted later in the same cascade by another fired decision
                 if (!ok && r.trust && got == L_MANDIS) { ok = true; stat("fired_then_distrusted_same_step"); }
-                if (!ok && !strict && sameIdDecided) { stat("cross_owner_superseded_in_cascade"); continue; }
+                if (!ok && !strict && sameIdDecided) { stat("cross_owner_superseded_in_cascade"); fail("C18:cross-account-discard:superseded", recText(r)); continue; }
                 if (!ok) fail("C18:postponed-not-applied", recText(r) + " got " + std::to_string(got));
                 else if (inLibAfter) fail("C18:postponed-not-removed", recText(r));
                 else { oraclePass()++; stat("held_decision_fired"); }
@@ -340,7 +355,7 @@ public:
                 bool legit = false;
                 if (op.kind == Op::Man && op.o == r.owner) for (int k : (r.trust ? op.a : op.d)) if (k == r.key) legit = true;
                 if (op.kind == Op::Msg && (op.acc == own || op.acc == r.owner)) for (auto &ko : op.owners) if (ko.jid == r.owner) for (int k : (r.trust ? ko.tr : ko.di)) if (k == r.key) legit = true;
-                for (auto &q : P) if (!(q.sacc == r.sacc && q.sk == r.sk) && q.owner == r.owner && q.key == r.key && q.trust == r.trust && (a.level(q.sacc, q.sk) == L_AUTH || touchedIds.count(q.sk)) &&
+                for (auto &q : P) if (!(q.sacc == r.sacc && q.sk == r.sk) && q.owner == r.owner && q.key == r.key && q.trust == r.trust && (a.level(q.sacc, q.sk) == L_AUTH || touchedIds.count(q.sk) || a.level(own, q.sk) == L_AUTH || a.level(q.owner, q.sk) == L_AUTH) &&
                                      b.pp.count(PEntry(q.sk, q.owner, q.key, q.trust)) && !a.pp.count(PEntry(q.sk, q.owner, q.key, q.trust))) legit = true;
                 if (strict) {
                     // without shared key IDs that is the only legitimate reason
@@ -350,24 +365,35 @@ public:
                     continue;
                 }
                 if (legit && sameKeyDecided) { stat("held_decision_superseded"); oraclePass()++; continue; }
-                bool otherAuth = false, otherDis = false;
-                for (int acc2 = 0; acc2 < NACC; acc2++) if (acc2 != r.sacc) { if (a.level(acc2, r.sk) == L_AUTH) otherAuth = true; if (a.level(acc2, r.sk) == L_MANDIS) otherDis = true; }
+                // Key IDs are shared between accounts in this sequence.  The store files a held decision under the sender's key ID alone, so a
+                // decision of (r.sacc, r.sk) can be touched through the same ID of ANOTHER account:
+                bool otherAuth = false, otherDisNow = false;
+                for (int acc2 = 0; acc2 < NACC; acc2++) if (acc2 != r.sacc) {
+                    if (a.level(acc2, r.sk) == L_AUTH) otherAuth = true;
+                    // (a fired distrust of an already distrusted key is invisible in the levels and emissions, so the level alone has to do)
+                    if (a.level(acc2, r.sk) == L_MANDIS) otherDisNow = true;
+                }
                 const bool tookEffect = got == expected && b.level(r.owner, r.key) != expected;
                 const bool overwritten = op.kind == Op::Msg && op.sk == r.sk && op.acc != r.sacc && a.pp.count(PEntry(r.sk, r.owner, r.key, !r.trust));
-                if (overwritten) stat("cross_owner_overwritten");
-                else if ((otherAuth || otherDis) && tookEffect) {
-                    // The decision fired although ITS sender's key (r.sacc, r.sk) is not authenticated: the key ID is authenticated for another
-                    // account.  Entries are filed by key ID only, so this is tolerated (and counted) exactly when that account could have made
-                    // the decision itself: the own account, or the account the decision is about.  Anything else is the defect fixed in a532e12.
+                if (overwritten) stat("cross_owner_overwritten");   // R4: needs two accounts' devices that really share a key pair (sender key IDs are verified by decryption)
+                else if ((otherAuth || otherDisNow) && tookEffect) {
+                    // R1: the decision fired although ITS sender's key (r.sacc, r.sk) is not authenticated: the key ID is authenticated for another
+                    // account.  Tolerated (and counted) exactly when that account could have made the decision itself: the own account, or the
+                    // account the decision is about.  Anything else is the defect fixed in a532e12.
                     // (an own key or an own device's message may start a cascade that authenticates keys of several accounts at once; the
                     // re-check is per batch, and whoever started it may decide about every account anyway)
                     bool inScopeOfOther = (op.kind == Op::Msg && op.acc == own) || (op.kind == Op::Man && op.o == own);
                     for (int acc2 = 0; acc2 < NACC; acc2++) if (acc2 != r.sacc && (a.level(acc2, r.sk) == L_AUTH || a.level(acc2, r.sk) == L_MANDIS) && (acc2 == own || acc2 == r.owner)) inScopeOfOther = true;
                     if (inScopeOfOther) stat("fired_by_key_id_other_account");
                     else { stat("cross_owner_fired"); fail("C18:cross-owner-key-id", recText(r)); }
-                } else if (otherDis) stat("cross_owner_discarded");
-                else if (sameIdDecided) stat("held_decision_superseded");
-                else if (otherAuth) stat("cross_owner_fired_without_effect");
+                } else if (otherDisNow) {
+                    // R3: a key with the sender's ID was distrusted for ANOTHER account: the held decision is thrown away although its own sender key
+                    // was neither authenticated nor distrusted (anybody entitled to distrust one of his own keys can name that ID)
+                    stat("cross_owner_discarded"); fail("C18:cross-account-discard:distrust", recText(r));
+                } else if (sameIdDecided) {
+                    // R2: a fired decision with the same verdict for the same key ID of ANOTHER owner removed it (removal is by verdict and key ID)
+                    stat("cross_owner_superseded"); fail("C18:cross-account-discard:superseded", recText(r));
+                } else if (otherAuth) stat("cross_owner_fired_without_effect");
                 else fail("C18:held-entry-vanished", recText(r));
                 continue;
             }
@@ -410,7 +436,10 @@ public:
         case Op::Seed: { QMultiHash<QString, QByteArray> h; h.insert(acct(op.o), keyBytes(op.k)); doneVoid(manager->QXmppTrustManager::setTrustLevel(encNs(op.enc), h, lvlOf(op.lvl))); stat("op_seed"); break; }
         case Op::Man: { QList<QByteArray> a, d; for (int k : op.a) a << keyBytes(k); for (int k : op.d) d << keyBytes(k);
                         doneVoid(manager->makeTrustDecisions(encNs(op.enc), acct(op.o), a, d)); stat("op_manual"); break; }
-        case Op::Msg: { QXmppMessage m = buildMessage(op); doneVoid(manager->handleMessage(m)); stat("op_message"); break; }
+        case Op::Msg: { QXmppMessage m = buildMessage(op);
+                        if (op.flags.find('s') != std::string::npos) { Q_EMIT client->messageReceived(m); stat("op_message_via_client_signal"); }   // the wiring of onRegistered()
+                        else doneVoid(manager->handleMessage(m));
+                        stat("op_message"); if (!op.flags.empty()) stat("op_message_with_type_or_route_flag"); break; }
         }
         std::vector<Snap> after; for (int e = 0; e < NENC; e++) after.push_back(snap(e));
         std::string obs;
@@ -459,6 +488,7 @@ static Op randomOp(Rng &rng, int own, int ownRes) {
             if (ko.tr.empty() && ko.di.empty() && rng.below(4)) ko.tr.push_back(1 + rng.below(NKEY - 1));
             op.owners.push_back(ko);
         }
+        { int f = rng.below(12); if (f == 0) op.flags = "g"; else if (f == 1) op.flags = "s"; else if (f == 2) { const char *t[] = { "h", "n", "e", "gs" }; op.flags = t[rng.below(4)]; } }
         (void)own;
     }
     return op;
@@ -508,6 +538,15 @@ int main(int argc, char **argv) {
     t.runText(0, 0, { "man 0 1 - 1", "msg 0 1 1 1 0 1:2:-", "man 0 1 1 -" });                    // a distrusted sender is "not authenticated": held, fires if authenticated later
     t.runText(0, 0, { "msg 0 1 1 1 0 1:-:2", "msg 0 1 1 2 0 1:3:-", "man 0 1 1 -" });            // a FIRED distrust of B:k2 discards what B:k2 had sent
 
+    // cross-account discards (findings C18:cross-account-discard:*): B, authenticated by k3, says "B:k1 distrusted" and thereby throws away what C's device k1 had sent
+    t.runText(0, 0, { "msg 0 2 1 1 0 2:2:-", "man 0 1 3 -", "msg 0 1 1 3 0 1:-:1", "man 0 2 1 -" });
+    // B's held "B:k2 distrusted" fires (B:k4 authenticated) and removes C's held "C:k2 distrusted" as well; authenticating C:k1 later applies nothing
+    t.runText(0, 0, { "msg 0 2 1 1 0 2:-:2", "msg 0 1 1 4 0 1:-:2", "man 0 1 4 -", "man 0 2 1 -" });
+    // the same trust message twice, as groupchat, through the client's messageReceived signal; contradicting verdicts; held trust then held distrust from two senders
+    t.runText(0, 0, { "man 0 1 1 -", "msg 0 1 1 1 0 1:2:3", "msg 0 1 1 1 0 1:2:3", "msg 0 1 1 1 0 1:4:- g", "msg 0 1 1 1 0 1:-:4 s", "msg 0 1 1 2 0 1:3:3 gs" });
+    t.runText(0, 0, { "msg 0 1 1 1 0 1:3:-", "msg 0 1 1 2 0 1:-:3", "man 0 1 1,2 -" });
+    t.runText(0, 0, { "msg 0 1 1 1 0 1:3:-", "msg 0 1 1 2 0 1:-:3", "man 0 1 2 -", "man 0 1 1 -" });
+
     // ---- exhaustive over a compact alphabet, under both policies
     std::vector<std::string> alphaText = {
         "man 0 1 1 -", "man 0 1 2 -", "man 0 0 1 -", "man 0 2 1 -", "man 0 1 - 1", "man 0 0 - 1", "man 0 1 2 1",
@@ -530,7 +569,10 @@ int main(int argc, char **argv) {
         int len = 4 + rng.below(27);
         std::vector<Op> ops;
         if (rng.coin()) { Op p; p.kind = Op::Pol; p.enc = 0; p.pol = 1; ops.push_back(p); }
-        for (int j = 0; j < len; j++) ops.push_back(randomOp(rng, own, ownRes));
+        for (int j = 0; j < len; j++) {
+            if (!ops.empty() && ops.back().kind == Op::Msg && rng.below(12) == 0) ops.push_back(ops.back());   // duplicated / replayed message
+            else ops.push_back(randomOp(rng, own, ownRes));
+        }
         if (i < 3) { std::string s; for (auto &o : ops) s += opText(o) + "; "; sample(s); }
         t.runSeq(own, ownRes, ops);
     }
